@@ -32,6 +32,7 @@ def run(tier):
     eigen_sort(chk, F, fns)
     guards_real(chk, F, fns)
     scalar_operand(chk, F)
+    field_traits(chk, F)
     chk.floor("linalg bodies", len(fns), 7)
     return chk.finish()
 
@@ -190,11 +191,22 @@ def lu_new(chk, F, body):
             all_incs = [y for y in walk.walk_body(body) if y.get("k") == "assignop" and root_name(y["a"]) == "p_count"]
             p_assigns = [y for y in walk.walk(blk) if y.get("k") == "assign" and peel(y["a"])["k"] == "index" and root_name(peel(y["a"])["a"]) == "p"]
             a_assigns = [y for y in walk.walk(blk) if y.get("k") == "assign" and index_pair(y["a"]) and index_pair(y["a"])[2] == "a"]
-            found_p = "p_count updates in block: %d (total %d), permutation assignments: %d, row assignments: %d" % (
-                len(incs), len(all_incs), len(p_assigns), len(a_assigns))
-            pair_ok = len(incs) == 1 and len(all_incs) == 1 and len(p_assigns) == 2 and len(a_assigns) == 2
+            # the row exchange must cover whole rows (columns 0..n): the multipliers stored in the columns left of the pivot
+            # belong to the rows and have to move with them
+            full_rows = False
+            swap_range = ""
+            for lp in walk.walk(blk):
+                if is_for(lp):
+                    fp2 = for_parts(lp)
+                    if fp2 and any(y.get("k") == "assign" and index_pair(y["a"]) and index_pair(y["a"])[2] == "a" for y in walk.walk(fp2[3])):
+                        st0 = peel(fp2[2])
+                        swap_range = "%s..%s" % (expr_s(fp2[2]), expr_s(fp2[1]))
+                        full_rows = st0["k"] == "lit" and st0["lit"]["v"] == "0" and expr_s(fp2[1]) == expr_s(end)
+            found_p = "p_count updates in block: %d (total %d), permutation assignments: %d, row assignments: %d, row exchange over columns %s" % (
+                len(incs), len(all_incs), len(p_assigns), len(a_assigns), swap_range or "?")
+            pair_ok = len(incs) == 1 and len(all_incs) == 1 and len(p_assigns) == 2 and len(a_assigns) == 2 and full_rows
     chk.ob("lu|pairing|swap", pair_ok, "row swap, permutation swap and parity counter are updated together in the same guarded block", loc,
-           found=found_p or "no `if imax != i` block", required="1 counter update, 2 permutation assignments, 2 row assignments in one block")
+           found=found_p or "no `if imax != i` block", required="1 counter update, 2 permutation assignments, 2 row assignments over columns 0..n in one block")
 
 
 def resolve_local(scope, e):
@@ -339,3 +351,12 @@ def scalar_operand(chk, F):
     missing = sorted(set(TYPES) - have)
     chk.ob("scalar-operand", not missing, "ndarray's ScalarOperand is implemented for all 8 number types", "src/linalg.rs", found=sorted(have),
            required=sorted(TYPES), nontrivial=False)
+
+
+def field_traits(chk, F):
+    """the field-trait implementations that let nalgebra's generic decompositions run over dual numbers forward to the verified
+    dual operations (scale/unscale = multiplication/division by a DUAL factor, abs, sqrt, recip, ...): rule set of C11, reused"""
+    from . import c11
+    for ty in c11.FIELD4:
+        c11.complex_field(chk, F, ty, thorough=False, branches=False)
+        c11.real_field(chk, F, ty)
